@@ -12,7 +12,8 @@
 From Coq Require Import String.
 From Coq Require Import NArith ZArith Bool List.
 Import ListNotations.
-From TV Require Import C02.Model C02.Client C02.Proofs2 C02.Proofs3 C02.Proofs4 C02.Proofs5 C02.Proofs7 C02.Codec.
+From TV Require Import C02.Model C02.Client C02.Proofs2 C02.Proofs3 C02.Proofs4 C02.Proofs5 C02.Proofs7 C02.Codec C02.Compress C02.CompressProofs.
+From TV Require C29.Model.
 
 (* FULL STATEMENT (INV of DESIGN.md section 7), refuted by the open known finding
    "write-headers-raised" (C02_header_error_refuted below):
@@ -85,6 +86,29 @@ Theorem C02_chunked_coding_roundtrip : forall chunks rest,
   dechunk (S (length w)) w [] = DDone (concat chunks) rest.
 Proof. exact chunked_roundtrip. Qed.
 Print Assumptions C02_chunked_coding_roundtrip.
+
+(* The output-transform dimension (compress_response=True).  [crun] (C02/Compress.v) runs the handler
+   side of C29's model - headers, write, flush, finish with GZipContentEncoding applied BEFORE the
+   HEAD discard, any gzip codec - and feeds what it hands over (status, header dictionary, chunks) to
+   this property's connection model.
+   (1) For every codec, environment, HEAD request (any version / Connection / ...), Accept-Encoding
+   value and handler program: a completed HEAD response carries no body byte. *)
+Theorem C02_head_no_body_with_output_transform : forall c e q ae p s,
+  is_head q = true -> crun c e q ae p = CDone s -> concat (o_body s) = [].
+Proof. exact head_no_body_with_transform. Qed.
+Print Assumptions C02_head_no_body_with_output_transform.
+
+(* (2) write_headers, for HEAD and GET alike, never alters a header other than Connection and
+   Transfer-Encoding: the values of Content-Length, Content-Encoding, Vary, ... in the emitted block
+   are exactly those of the dictionary the handler handed over.  Together with
+   C29_head_has_get_headers_and_no_body (the handler hands the same status, Content-Length,
+   Content-Encoding, Vary and Content-Type to the connection for HEAD as for GET, transform on or
+   off) this is the clause "a HEAD response's header block equals the GET's". *)
+Theorem C02_write_headers_keeps_entity_headers : forall q code H k,
+  beqb k K_CONN = false -> beqb k K_TE = false ->
+  field_values k (whH q code H) = field_values k H.
+Proof. exact whH_keeps_fields. Qed.
+Print Assumptions C02_write_headers_keeps_entity_headers.
 
 (* The open finding, as a theorem about the faithful model: GET HTTP/1.1, handler
    set_header("Bad Name", "v"); flush()  puts the bare chunk terminator on the wire with no header
